@@ -48,6 +48,7 @@ type sessObs struct {
 var sessCounter int
 var sessWorld = map[string]int{"d1": 1, "d2": 1, "d3": 1}
 var metaDigest = map[string]string{}
+var sessOpts, sessOptsNoBase *spec.ExpandOptions
 
 const sessBase = "file:///w/r/root.json"
 
@@ -94,7 +95,14 @@ func init() {
 				return err
 			}
 			cwdPrefix = base
-			return os.Chdir(filepath.Join(base, "w", "r"))
+			if err := os.Chdir(filepath.Join(base, "w", "r")); err != nil {
+				return err
+			}
+			// the pristine content of the built-in meta-schemas, before any expansion ran
+			if !metaIntact() {
+				return errors.New("built-in meta-schemas do not resolve at start-up")
+			}
+			return nil
 		},
 		run: func(line []byte, emit func(interface{})) error {
 			var h struct {
@@ -169,7 +177,14 @@ func sessCall(st sessStep) (so sessStepObs) {
 	old := spec.PathLoader
 	spec.PathLoader = loader
 	defer func() { spec.PathLoader = old }()
-	opts := &spec.ExpandOptions{RelativeBase: sessBase, PathLoader: loader}
+	// the caller keeps ONE options value for all its calls; only the loader closure is refreshed
+	if sessOpts == nil {
+		sessOpts = &spec.ExpandOptions{RelativeBase: sessBase}
+		sessOptsNoBase = &spec.ExpandOptions{}
+	}
+	opts := sessOpts
+	opts.PathLoader = loader
+	sessOptsNoBase.PathLoader = loader
 	var out []byte
 	var err error
 	switch st.X {
@@ -198,6 +213,20 @@ func sessCall(st sessStep) (so sessStepObs) {
 		_ = json.Unmarshal([]byte(`{"$ref":"#/definitions/X"}`), &s)
 		err = spec.ExpandSchema(&s, &sw, nil)
 		out, _ = json.Marshal(s)
+	case "nobaseA":
+		// options without a RelativeBase: documents are found relative to the working directory
+		var s spec.Schema
+		_ = json.Unmarshal([]byte(`{"$ref":"d1.json#/definitions/T"}`), &s)
+		err = spec.ExpandSchemaWithBasePath(&s, nil, sessOptsNoBase)
+		out, _ = json.Marshal(s)
+		so.Opts = sessOptsNoBase.RelativeBase == "" && !sessOptsNoBase.SkipSchemas && !sessOptsNoBase.ContinueOnError && sessOptsNoBase.PathLoader != nil
+	case "metaref":
+		// a schema that refers to a whole built-in meta-schema document
+		var s spec.Schema
+		_ = json.Unmarshal([]byte(`{"type":"object","properties":{"m":{"$ref":"http://json-schema.org/draft-04/schema#"},"s":{"$ref":"http://swagger.io/v2/schema.json#/definitions/info"}}}`), &s)
+		err = spec.ExpandSchemaWithBasePath(&s, nil, opts)
+		out = []byte(`{}`)
+		so.Opts = opts.RelativeBase == sessBase && opts.PathLoader != nil
 	case "meta":
 		sch := spec.MustLoadJSONSchemaDraft04()
 		err = spec.ExpandSchema(sch, sch, nil)
@@ -247,6 +276,7 @@ func sessCall(st sessStep) (so sessStepObs) {
 func metaIntact() bool {
 	noLoader := func(u string) (json.RawMessage, error) { return nil, errors.New("built-ins must not be fetched: " + u) }
 	for _, r := range []string{"http://json-schema.org/draft-04/schema#/definitions/positiveInteger", "http://json-schema.org/draft-04/schema#",
+		"http://json-schema.org/draft-04/schema#/properties/maxLength", "http://json-schema.org/draft-04/schema#/definitions/positiveIntegerDefault0",
 		"http://swagger.io/v2/schema.json#/definitions/info", "http://swagger.io/v2/schema.json#/definitions/schema"} {
 		ref := spec.MustCreateRef(r)
 		s, err := spec.ResolveRefWithBase(nil, &ref, &spec.ExpandOptions{RelativeBase: sessBase, PathLoader: noLoader})
